@@ -377,24 +377,30 @@ def simplifyEquality (inverseCmp : Cmp → Cmp) (addInvIsSub subInvIsAdd : Bool)
 
 /-! ## simplify_conditionals -/
 
+/-- `reverse kept ++ rest` on the `cons`-encoded list -/
+def appRev (kept : List E) (rest : E) : E := kept.foldl (fun acc x => .cons x acc) rest
+
 /-- the `for case in ifs` loop of the CASE branch; `kept` is the reversed list of surviving branches.
-    Removing a branch while iterating over the live list skips the following one (mirrored). -/
-def caseLoop (dflt : E) : (fuel : Nat) → (kept : List E) → (rest : E) → E
-  | 0, kept, rest => .case (kept.foldl (fun acc x => .cons x acc) rest) dflt
+    Removing a branch while iterating over the live list skips the following one (mirrored).
+    `firstOnly = true` is the code as it is now: a constant-TRUE condition only collapses the CASE when it is the first
+    remaining branch (otherwise the loop stops); `firstOnly = false` is the unrepaired variant kept for the witness. -/
+def caseLoop (firstOnly : Bool) (dflt : E) : (fuel : Nat) → (kept : List E) → (rest : E) → E
+  | 0, kept, rest => .case (appRev kept rest) dflt
   | fuel + 1, kept, rest =>
     match rest with
     | .cons h tl =>
       match h with
       | .iff c t _ =>
-        if alwaysTrue c then t
+        if alwaysTrue c then
+          (if firstOnly && !kept.isEmpty then .case (appRev kept rest) dflt else t)
         else if alwaysFalse c then
           match kept, tl with
           | [], .nil => (if dflt = .absent then .null else dflt)
-          | _, .cons nxt tl' => caseLoop dflt fuel (nxt :: kept) tl'
-          | _, _ => .case (kept.foldl (fun acc x => .cons x acc) tl) dflt
-        else caseLoop dflt fuel (h :: kept) tl
-      | _ => caseLoop dflt fuel (h :: kept) tl
-    | _ => .case (kept.foldl (fun acc x => .cons x acc) rest) dflt
+          | _, .cons nxt tl' => caseLoop firstOnly dflt fuel (nxt :: kept) tl'
+          | _, _ => .case (appRev kept tl) dflt
+        else caseLoop firstOnly dflt fuel (h :: kept) tl
+      | _ => caseLoop firstOnly dflt fuel (h :: kept) tl
+    | _ => .case (appRev kept rest) dflt
 
 def listLen : E → Nat
   | .cons _ t => listLen t + 1
@@ -402,7 +408,7 @@ def listLen : E → Nat
 
 def simplifyConditionals (parentIsCase : Bool) (e : E) : E :=
   match e with
-  | .case ifs dflt => caseLoop dflt (listLen ifs + 1) [] ifs
+  | .case ifs dflt => caseLoop true dflt (listLen ifs + 1) [] ifs
   | .iff c t f =>
     if parentIsCase then e
     else if alwaysTrue c then t
@@ -438,7 +444,8 @@ def coalesceRewrite (k : Option Cmp) (coalesceLeft : Bool) (first rest other : E
     let truncated := E.coalesce (.cons first pre)
     let this := if pre = .nil then first else truncated
     let exprCopy := if coalesceLeft then mkCmpLike k truncated other else mkCmpLike k other truncated
-    some (.paren (mkOr (mkAnd (.not (.is this .null)) exprCopy) (mkAnd (.is this .null) (mkCmpLike k c other))))
+    let constCmp := if coalesceLeft then mkCmpLike k c other else mkCmpLike k other c
+    some (.paren (mkOr (mkAnd (.not (.is this .null)) exprCopy) (mkAnd (.is this .null) constCmp)))
 
 def simplifyCoalesce (fl : Flags) (e : E) : E :=
   match e with
